@@ -30,8 +30,24 @@ def split_at(stream: bytes, cuts: list[int]) -> list[bytes]:
     return [c for c in out if c] if stream else []
 
 
-def _err_record(exc: StreamProtocolParseError) -> tuple:
-    return ("err", type(exc.error).__name__, len(bytes(exc.remaining_data)))
+def _err_record(exc: StreamProtocolParseError, received: bytes | None = None, path: str = "") -> tuple:
+    rem = bytes(exc.remaining_data)
+    if received is not None and rem and not received.endswith(rem):
+        # the unread remainder carried by the error is, by definition, the tail of what has been received so far
+        raise Violation(
+            "remainder-content",
+            f"{path}: the parse error's remaining_data {rem[:40]!r} ({len(rem)} bytes) is not the tail of the {len(received)} bytes received so far "
+            f"(...{received[-40:]!r})",
+            path=path,
+        )
+    inner = getattr(exc.error, "remaining_data", None)
+    if received is not None and inner is not None and bytes(inner) and not received.endswith(bytes(inner)):
+        raise Violation(
+            "remainder-content",
+            f"{path}: error.remaining_data {bytes(inner)[:40]!r} of the inner {type(exc.error).__name__} is not the tail of the bytes received so far",
+            path=path,
+        )
+    return ("err", type(exc.error).__name__, len(rem))
 
 
 def drive_a(protocol: Any, chunks: list[bytes], *, max_outputs: int | None = None, observe=None) -> tuple[list[tuple], bytes]:
@@ -39,15 +55,18 @@ def drive_a(protocol: Any, chunks: list[bytes], *, max_outputs: int | None = Non
     consumer = StreamDataConsumer(protocol)
     outputs: list[tuple] = []
     budget = max_outputs if max_outputs is not None else sum(len(c) for c in chunks) + len(chunks) + 8
+    received = bytearray()
 
     def pump(feed: bytes | None) -> bool:
         """one receive() attempt; True if it produced an output"""
+        if feed:
+            received.extend(feed)
         try:
             pkt = consumer.next(feed)
         except StopIteration:
             return False
         except StreamProtocolParseError as exc:
-            outputs.append(_err_record(exc))
+            outputs.append(_err_record(exc, bytes(received), "copying path"))
             return True
         outputs.append(("pkt", pkt))
         return True
@@ -94,7 +113,7 @@ def drive_b(
         except StopIteration:
             return False
         except StreamProtocolParseError as exc:
-            outputs.append(_err_record(exc))
+            outputs.append(_err_record(exc, bytes(stream[:pos]), "buffered path"))
             return True
         outputs.append(("pkt", pkt))
         return True
